@@ -79,6 +79,10 @@ fn make_bundle(j: usize) -> FluentBundleResult<FluentResource> {
         // same depth structure, but formatting reports a RESOLVER error (unknown variable): the key is answered all the same
         src.push_str(&format!("e{} = b{}{{ $zz }}\n", d, j));
     }
+    for d in 1..=j + 1 {
+        // same depth structure, but the message formats to the EMPTY string: an answer all the same (api `z`)
+        src.push_str(&format!("z{} = {{ \"\" }}\n", d));
+    }
     // present in every bundle, attributes only (no value): answers a messages request at once, never a value request
     src.push_str("ao =\n    .a = x\n");
     if j % 3 == 1 {
@@ -188,6 +192,9 @@ fn key_ids(api: char, d: usize) -> Vec<String> {
         vec![format!("e{}", d)]
     } else if api == 'n' {
         vec!["ao".to_string(), format!("m{}", d)]
+    } else if api == 'z' {
+        // a key that formats to "" first, the deep key last (both answered by the same bundle)
+        vec![format!("z{}", d), format!("m{}", d)]
     } else {
         // a shallower key first, the deep key last
         vec![format!("m{}", std::cmp::max(1, d / 2)), format!("m{}", d)]
@@ -205,7 +212,7 @@ fn make_fut<'a>(b: &'a Bundles<Gen>, api: char, d: usize) -> Fut<'a> {
                 .map(|c| c.into_owned());
             (vec![r], errors)
         }),
-        's' | 'e' => Box::pin(async move {
+        's' | 'e' | 'z' => Box::pin(async move {
             let keys: Vec<L10nKey> = ids.iter().map(|i| L10nKey::from(i.as_str())).collect();
             let mut errors = vec![];
             let r = b.format_values(&keys, &mut errors).await;
@@ -235,7 +242,7 @@ fn run_sync(b: &Bundles<Gen>, api: char, d: usize) -> Result<Out, LocalizationEr
                 .map(|c| c.into_owned());
             (vec![r], errors)
         }
-        's' | 'e' => {
+        's' | 'e' | 'z' => {
             let keys: Vec<L10nKey> = ids.iter().map(|i| L10nKey::from(i.as_str())).collect();
             let r = b.format_values_sync(&keys, &mut errors)?;
             (r.into_iter().map(|o| o.map(|c| c.into_owned())).collect(), errors)
@@ -309,6 +316,12 @@ fn show_done(api: char, d: usize, out: &Out) -> String {
         if answers[0] != expect {
             extra.push_str("~attr-only-key-mismatch");
         }
+    } else if api == 'z' {
+        // the empty-text key is answered (with "") by the bundle that answers the deep key
+        let expect = if ans.is_some() { Some(String::new()) } else { None };
+        if answers[0] != expect {
+            extra.push_str("~empty-text-key-mismatch");
+        }
     } else if ids.len() == 2 {
         // the shallow key is answered by the bundle at its own depth iff the request got that far
         let d2 = std::cmp::max(1, d / 2);
@@ -338,6 +351,7 @@ fn parse_op(k: usize, op: &str) -> Option<Op> {
                 "m" => 'm',
                 "n" => 'n',
                 "e" => 'e',
+                "z" => 'z',
                 _ => return None,
             };
             if c >= k {
